@@ -387,7 +387,7 @@ class Ombott:
             # rfc2616 section 4.3
             if (
                 response._status_code in {100, 101, 204, 304}
-                or environ['REQUEST_METHOD'] == 'HEAD'
+                or environ['REQUEST_METHOD'].upper() == 'HEAD'
             ):
                 close = getattr(out, 'close', None)
                 if close:
